@@ -1215,4 +1215,54 @@ theorem pairwise_exists_other {α : Type} {R : α → α → Prop} {l : List α}
     | nil => simp at h2
     | cons b bs => exact ⟨b, by simp, Or.inr (hp12 b (by simp) a (by simp))⟩
 
+/-! ## dump merge (`GDumpParser._introspect_enum`) -/
+
+theorem nickName_toNick (n : Str) (h : '-' ∉ n) : nickName (toNick n) = n := by
+  induction n with
+  | nil => rfl
+  | cons c cs ih =>
+    have hc : c ≠ '-' := fun e => h (by simp [e])
+    have hcs : '-' ∉ cs := fun e => h (by simp [e])
+    have ih' := ih hcs
+    simp only [nickName, toNick, List.map_cons] at ih' ⊢
+    rw [ih']
+    by_cases hu : c = '_'
+    · simp [hu]
+    · simp [hu, hc]
+
+theorem lookupPrevious_some {prev : List Member} {n : Str} {y : Member}
+    (h : lookupPrevious prev n = some y) : y ∈ prev ∧ y.name = n := by
+  induction prev with
+  | nil => simp [lookupPrevious] at h
+  | cons m ms ih =>
+    simp only [lookupPrevious] at h
+    cases hl : lookupPrevious ms n with
+    | some x =>
+      rw [hl] at h
+      simp only [Option.some.injEq] at h
+      subst h
+      exact ⟨List.mem_cons_of_mem _ (ih hl).1, (ih hl).2⟩
+    | none =>
+      rw [hl] at h
+      by_cases hm : m.name = n
+      · simp only [hm, if_true, Option.some.injEq] at h
+        subst h
+        exact ⟨by simp, hm⟩
+      · simp [hm] at h
+
+theorem lookupPrevious_mem {prev : List Member} (hd : prev.Pairwise (fun a b => a.name ≠ b.name))
+    {m : Member} (hm : m ∈ prev) : lookupPrevious prev m.name = some m := by
+  induction prev with
+  | nil => simp at hm
+  | cons x xs ih =>
+    rw [List.pairwise_cons] at hd
+    simp only [lookupPrevious]
+    rcases List.mem_cons.mp hm with rfl | hin
+    · cases hl : lookupPrevious xs m.name with
+      | none => simp
+      | some y =>
+        have := lookupPrevious_some hl
+        exact absurd this.2.symm (hd.1 y this.1)
+    · rw [ih hd.2 hin]
+
 end GIVerif.EnumConst
